@@ -133,7 +133,7 @@ static void child_finish(int rc) {
     S->st = sim::stats();
     const std::vector<uint32_t>& t = sim::decision_trace();
     S->ntrace = (uint32_t)std::min<size_t>(t.size(), 1 << 16);
-    memcpy(S->trace, t.data(), S->ntrace * sizeof(uint32_t));
+    if (S->ntrace) memcpy(S->trace, t.data(), S->ntrace * sizeof(uint32_t));
     S->exit_code = rc; S->finished = 1;
     fflush(nullptr);
     _exit(rc & 0xff);
@@ -143,7 +143,7 @@ static void child_fatal(int status, const char* detail) {
     S->st = sim::stats();
     const std::vector<uint32_t>& t = sim::decision_trace();
     S->ntrace = (uint32_t)std::min<size_t>(t.size(), 1 << 16);
-    memcpy(S->trace, t.data(), S->ntrace * sizeof(uint32_t));
+    if (S->ntrace) memcpy(S->trace, t.data(), S->ntrace * sizeof(uint32_t));
     S->finished = 2;
     _exit(status == RS_DEADLOCK ? 91 : 92);
 }
